@@ -288,6 +288,7 @@ def finish(prop, tier, seed, spec, lines, dones, det, harness_errors, wall, nw):
             print(f"HARNESS-ERROR property={prop} {h}")
     if unknown:
         seen = set()
+        unknown.sort(key=lambda ln: (ln.get("replay") is None, ln["idx"]))
         for ln in unknown:
             if ln["clause"] in seen:
                 continue
